@@ -47,7 +47,7 @@ def _blank(job, status):
                 n_results=0, reached=[], samples=[], funcs=[], stubs=[], wall=0.0)
 
 
-def run_jobs(jobs, nproc=None, progress=None, mem_gb=None, deadline=None):
+def run_jobs(jobs, nproc=None, progress=None, mem_gb=None, deadline=None, hard_deadline=None, order=None):
     nproc = nproc or int(os.environ.get("VERIF_JOBS", "0")) or min(16, os.cpu_count() or 4)
     nproc = max(1, min(nproc, len(jobs) or 1))
     if mem_gb is None:
@@ -58,7 +58,9 @@ def run_jobs(jobs, nproc=None, progress=None, mem_gb=None, deadline=None):
         mem_gb = max(2.0, min(8.0, total * 0.8 / nproc / (1 << 30)))
     mem_bytes = int(mem_gb * (1 << 30))
     tmpd = tempfile.mkdtemp(prefix="verif-jobs-")
-    if deadline is None:
+    if order is not None:
+        order = list(order)
+    elif deadline is None:
         order = sorted(range(len(jobs)), key=lambda i: -jobs[i].get("weight", 1))
     else:
         # core jobs first (heaviest first), then the deep table in the order given; deep jobs are not started after the deadline
@@ -71,6 +73,15 @@ def run_jobs(jobs, nproc=None, progress=None, mem_gb=None, deadline=None):
         while pending or running:
             if deadline is not None and time.time() > deadline:
                 pending = [i for i in pending if jobs[i].get("core")]
+            if hard_deadline is not None and time.time() > hard_deadline and running:
+                # the tier's wall budget is over: jobs still running are stopped and reported as not decided
+                for p in list(running):
+                    if not jobs[running[p][0]].get("core"):
+                        try:
+                            os.kill(p, signal.SIGKILL)
+                        except ProcessLookupError:
+                            pass
+                        running[p] = running[p][:4] + ("tier",)
             while pending and len(running) < nproc:
                 i = pending.pop(0)
                 job = jobs[i]
@@ -88,7 +99,8 @@ def run_jobs(jobs, nproc=None, progress=None, mem_gb=None, deadline=None):
                 pid = 0
             if pid == 0:
                 now = time.time()
-                for p, (i, outpath, t0, limit) in list(running.items()):
+                for p, rec in list(running.items()):
+                    (i, outpath, t0, limit) = rec[:4]
                     if now - t0 > limit:
                         try:
                             os.kill(p, signal.SIGKILL)
@@ -98,7 +110,9 @@ def run_jobs(jobs, nproc=None, progress=None, mem_gb=None, deadline=None):
                 continue
             if pid not in running:
                 continue
-            i, outpath, t0, limit = running.pop(pid)
+            rec = running.pop(pid)
+            i, outpath, t0, limit = rec[:4]
+            tier_killed = len(rec) > 4
             job = jobs[i]
             res = None
             if os.path.exists(outpath):
@@ -109,7 +123,7 @@ def run_jobs(jobs, nproc=None, progress=None, mem_gb=None, deadline=None):
                 except Exception:
                     res = None
             if res is None:
-                why = "killed (wall limit %ds)" % limit if time.time() - t0 > limit else "worker died (signal %d, probably out of memory)" % (status & 0x7f)
+                why = "tier wall budget" if tier_killed else ("killed (wall limit %ds)" % limit if time.time() - t0 > limit else "worker died (signal %d, probably out of memory)" % (status & 0x7f))
                 res = _blank(job, why)
             base = _blank(job, res.get("status", "?"))
             base.update(res)
